@@ -90,5 +90,13 @@ class Session:
         if c in self.clients:
             self.clients.remove(c)
 
+    def deafen(self, c):
+        """injected fault: every write of the broker to c fails from now on; c stays connected and subscribed
+        and sends nothing more (the generator only closes it later)"""
+        self.ops.append("deafen " + c)
+        if c in self.clients:
+            self.clients.remove(c)
+        self.deaf = getattr(self, "deaf", []) + [c]
+
     def dump(self):
         self.ops.append("dump")
